@@ -509,10 +509,12 @@ func replayImpl(w *World, root string, rep *OblReport, workDir string) (string, 
 		}
 	}
 	detail["outputs"] = outs
-	if panicked != "" && g.usedNil && strings.Contains(panicked, "nil pointer") {
+	if panicked != "" && (strings.Contains(panicked, "nil pointer") || strings.Contains(panicked, "invalid memory address")) {
+		// inputs rebuilt from a model leave opaque parts (interfaces, pruned fields, parents) nil: a nil
+		// dereference during replay is an artefact of that, never evidence about the obligation
 		detail["panic"] = panicked
 		db, _ := json.Marshal(detail)
-		return "REPLAY-UNAVAILABLE", "the replay passed nil for an opaque interface input and the path used it: " + string(db)
+		return "REPLAY-UNAVAILABLE", "the replay dereferenced a nil part of the reconstructed input (opaque state that the model does not describe): " + string(db)
 	}
 	if panicked != "" {
 		detail["panic"] = panicked
